@@ -3,7 +3,7 @@ use parity_scale_codec::{Compact, Decode, Encode};
 #[derive(Encode, Decode)]
 pub enum T {
 	#[codec(skip)] #[codec(index = 255)] V0,
-	#[codec(skip)] #[codec(index = 1)] V1,
+	#[codec(index = 1)] #[codec(skip)] V1,
 	V2 = 2,
 }
 fn main() {}
